@@ -248,6 +248,13 @@ class ExprMixin:
             return SList(z3.If(b, x.len, y.len), z3.If(b, x.arr, y.arr), x.elem)
         if isinstance(x, SOpaque) and isinstance(y, SOpaque):
             return SOpaque(z3.If(b, x.t, y.t), x.tag)
+        if (x is None and isinstance(y, SOpaque)) or (y is None and isinstance(x, SOpaque)):
+            from .opaque import ufun as _uf          # None among opaque values: one constant, recognised by is_none
+            from .ops import opaque_pred
+            o = x if isinstance(x, SOpaque) else y
+            none_u = z3.Const("U!None", o.t.sort())
+            self.ctx.assume(opaque_pred("is_none")(none_u))
+            return SOpaque(z3.If(b, none_u if x is None else x.t, none_u if y is None else y.t), o.tag)
         raise Unsupported(f"cannot merge {x!r} and {y!r}")
 
     def ev_BoolOp(self, node):
